@@ -384,6 +384,7 @@ def handle (line : String) : String :=
                 s!"verified=T|same=T|altered={if alter == "none" then "T" else "F"}"
      | .error e => s!"bad-op:{e}") ++ "\t-"
   | ["cost", world, impl] => doCost world impl
+  | ["servetime", _, _] => "done\t-"
   | ["didread", m, arg, impl] => doDidRead m arg impl
   | ["cbor", v, _] => doCbor v
   | ["rcptconc", _, g, per, _, _] => (match g.toNat?, per.toNat? with
